@@ -158,7 +158,10 @@ impl Check for MalformedUpdates {
                     rng.chance(1, 3),
                     Json::Arr(present),
                     Json::Arr(corr),
-                    nlri_damage
+                    nlri_damage,
+                    // the optional transitive attributes arrive with the Partial bit set, as they do
+                    // after a speaker that did not recognise them: legal, and no licence for leniency
+                    rng.chance(1, 3)
                 ]);
             }
         }
@@ -303,6 +306,13 @@ async fn run(case: Json, tol: Tolerate) -> Outcome {
             v.push(0);
             v.extend_from_slice(&[48, 0x20, 0x01, 0x0d, 0xb8, 0x00, 0x77]);
             tlvs.push(Tlv { flags: 0x80, code: 14, val: v, len: None });
+        }
+        if op.arr().len() > 7 && op.at(7).as_bool() {
+            for x in tlvs.iter_mut() {
+                if x.flags & 0xc0 == 0xc0 {
+                    x.flags |= 0x20;
+                }
+            }
         }
         // what each corruption does and how the statement classifies it
         let mut must_withdraw = false;
